@@ -59,6 +59,69 @@ def covered : Bool :=
 /-- every keyword the model gives a function is accepted by that function's parser in the code -/
 theorem parsers_accept_model_keywords : covered = true := by decide
 
+/-! ### three-way agreement per function: documented lambda list / keywords the code reads / keywords of the model -/
+
+/-- function ↦ (the parser that reads its keywords, the keywords the model gives it (`Kw` and the
+    bounds of the two-sequence functions; the harness generates exactly these)) -/
+def modelKeywords : List (String × String × List String) := [
+  ("find", "setKeysItem", [":key", ":test", ":test-not", ":start", ":end", ":from-end"]),
+  ("position", "setKeysItem", [":key", ":test", ":test-not", ":start", ":end", ":from-end"]),
+  ("count", "setKeysItem", [":key", ":test", ":test-not", ":start", ":end", ":from-end"]),
+  ("remove", "setKeysItem", [":key", ":test", ":test-not", ":start", ":end", ":from-end", ":count"]),
+  ("delete", "setKeysItem", [":key", ":test", ":test-not", ":start", ":end", ":from-end", ":count"]),
+  ("remove-duplicates", "setKeysItem", [":key", ":test", ":start", ":end", ":from-end"]),
+  ("delete-duplicates", "setKeysItem", [":key", ":test", ":start", ":end", ":from-end"]),
+  ("find-if", "setKeysIf", [":key", ":start", ":end", ":from-end"]),
+  ("position-if", "setKeysIf", [":key", ":start", ":end", ":from-end"]),
+  ("count-if", "setKeysIf", [":key", ":start", ":end", ":from-end"]),
+  ("remove-if", "setKeysIf", [":key", ":start", ":end", ":from-end", ":count"]),
+  ("delete-if", "setKeysIf", [":key", ":start", ":end", ":from-end", ":count"]),
+  ("substitute", "substitute.go", [":key", ":test", ":start", ":end", ":from-end", ":count"]),
+  ("nsubstitute", "substitute.go", [":key", ":test", ":start", ":end", ":from-end", ":count"]),
+  ("substitute-if", "substitute-if.go", [":key", ":start", ":end", ":from-end", ":count"]),
+  ("nsubstitute-if", "substitute-if.go", [":key", ":start", ":end", ":from-end", ":count"]),
+  ("member", "member.go", [":key", ":test"]),
+  ("assoc", "assoc.go", [":key", ":test"]),
+  ("rassoc", "rassoc.go", [":key", ":test"]),
+  ("search", "search.go", [":key", ":test", ":start1", ":end1", ":start2", ":end2", ":from-end"]),
+  ("mismatch", "mismatch.go", [":key", ":test", ":start1", ":end1", ":start2", ":end2", ":from-end"]),
+  ("replace", "replace.go", [":start1", ":end1", ":start2", ":end2"]),
+  ("fill", "fill.go", [":start", ":end"]),
+  ("sort", "sort.go", [":key"]),
+  ("stable-sort", "stable-sort.go", [":key"]),
+  ("merge", "merge.go", [":key"]),
+  ("reduce", "reduce.go", [":key", ":start", ":end", ":from-end", ":initial-value"]),
+  ("set-difference", "set-difference.go", [":key", ":test"]),
+  ("subsetp", "subsetp.go", [":key", ":test"])
+]
+
+def readBy (parser : String) : List String :=
+  match acceptedByParser.lookup parser with
+  | some ks => ks
+  | none => acceptedBy parser
+
+def docOf (fn : String) : List String :=
+  match documented.lookup fn with
+  | some ks => ks
+  | none => []
+
+def subset (a b : List String) : Bool := a.all (fun k => b.contains k)
+
+/-- for every function: (1) every documented keyword is read by the code, (2) the model knows every
+    documented keyword, (3) the model takes nothing that is not documented — except `:test-not`, the
+    complement of the documented `:test`, which the language gives every function that takes `:test`
+    (the shared parser reads it since fix 0013; elsewhere its absence is a known finding) —,
+    (4) every keyword of the model is read by the code, and (5) the table covers every extracted function -/
+theorem keywords_agree_three_ways :
+    modelKeywords.all (fun (fn, parser, kws) =>
+      subset (docOf fn) (readBy parser) &&
+      subset (docOf fn) kws &&
+      subset kws (":test-not" :: docOf fn) &&
+      subset kws (readBy parser) &&
+      !(docOf fn).isEmpty) = true ∧
+    documented.all (fun d => modelKeywords.any (fun m => m.1 == d.1)) = true := by
+  decide
+
 /-! ## the loop skeletons translated from the Go source -/
 open SlipVerif.Gen.SeqLoops
 
